@@ -487,18 +487,23 @@ def cls_sat(tx, env, C):
 
 
 def _lit(values, v):
-    """Literal[v1..vn] on v: True / False / UNSPEC (equal only across types)."""
-    res = False
+    """Literal[v1..vn] on v.  A Literal value matches what is equal to it *and* an instance of its type (the bound
+    of a Literal is the type of its values: Literal[True] is about bools, so 1 does not match it, while True - a
+    bool, hence an int - matches Literal[1]).  Only when the Literal mixes types and v equals a value of one type
+    while being an instance of another one is the answer left open (None)."""
+    cross = False
     for x in values:
         try:
             eq = bool(x == v)
         except Exception:
             eq = False
         if eq:
-            if type(x) is type(v):
+            if isinstance(v, type(x)):
                 return True
-            res = None
-    return res
+            cross = True
+    if cross and len({type(x) for x in values}) > 1 and any(isinstance(v, type(x)) for x in values):
+        return None
+    return False
 
 
 def accepts(tx, env, v):
